@@ -197,7 +197,7 @@ def _stager_alias_suite(ctx: Ctx):
                 ctx.fail("stager-alias-async", "buffer staged for an async snapshot changes when the tensor is mutated", inp,
                          {"serializer": entry.serializer})
             if ctx.driver:
-                rep = ctx.driver.call({"op": "stage", "async": is_async, "leaves": [{"ser": entry.serializer, "contig": contig}]})
+                rep = ctx.driver.call({"op": "stage_alias", "async": is_async, "leaves": [{"ser": entry.serializer, "contig": contig}]})
                 mk = rep.get("kinds", [None])[0]
                 if mk != ("alias" if alias else "fresh"):
                     ctx.disagree("stager_alias", inp, "alias" if alias else "fresh", mk)
